@@ -249,7 +249,7 @@ def check(run):
         run.notes.append('VERIF_SEARCH_ONLY set: proof step skipped')
     else:
         lib.proof_step(run, 'C01', ['T1', 'T2'])
-    okr, mok, sok = lib.build_binaries(run, model_areas=[], spec_areas=['wf'])
+    okr, mok, sok = lib.build_binaries(run, model_areas=['wfview'], spec_areas=['wf'])
     if not (okr and sok.get('wf')):
         return run.finish(level='proof', rule='(binaries did not build)')
     t0 = time.time()
@@ -345,6 +345,15 @@ def check(run):
             failures.append((d, fam, 'accept', M.split(' '), den, 'merged', None))
         elif merge_raw(R.split(' ')) != den:
             failures.append((d, fam, 'accept', merge_raw(R.split(' ')), den, 'raw', None))
+    # ---- (3) the model of the DOM accessors (Model/DomView.v, extracted; domain wfview) against the implementation:
+    # same texts (renderings of the generated documents, hand-written documents of the profile), same dump format
+    if mok.get('wfview'):
+        vt = texts + [d for _, d, _ in docs2]
+        _, vm = lib.run_bin(lib.model_bin('wfview'), ['wfview'], ['d ' + lib.enc(t) for t in vt], timeout=2400, shards=lib.NPROC)
+        vd = [(t, a, b) for t, a, b in zip(vt, impl + impl2, vm + ['crash'] * (len(vt) - len(vm))) if a != b]
+        run.extra['dom_view_compared'], run.extra['dom_view_differences'] = len(vt), len(vd)
+        for t, a, b in vd[:5]:
+            run.tie_breaks.append('dom view correspondence: %d of %d texts differ, e.g. %r: implementation %s / model %s' % (len(vd), len(vt), t[:120], a[:200], b[:200]))
     run.extra['search_seconds'] = round(time.time() - t0, 1)
     # ---- verdict
     listed = {e.get('id') for e in lib.known_findings('C01')}
